@@ -142,7 +142,7 @@ def select_cand_cuts(
                         axis=1)
 
     info_gains = mean_entropy - entropies
-    selected_idx = np.argmax(info_gains) if n_cand_cuts == 1 else np.argpartition(info_gains,
+    selected_idx = np.array([np.argmax(info_gains)]) if n_cand_cuts == 1 else np.argpartition(info_gains,
                                                                                   -n_cand_cuts)[-n_cand_cuts:]
     return selected_idx
 
